@@ -529,3 +529,8 @@ for nm, first in [("c18_resolve_resumption_then_external", "resumption, external
            "a foreign-group / other-epoch resumption id yields OldGroupStateNotFound, a missing external one MissingRequiredPsk" % first,
       symbolic="group id byte and epoch of the context and of the resumption id (any u64), external id byte, store content (present / id / value), current "
                "resumption secret", bounds="two ids, 1-byte group ids, 2-byte PSK values; prior-epoch repository absent")
+
+H("c16_cached_proposal_keeps_sender", "c16_cached.rs", ["C16"], "quick", unwind=12,
+  what="a proposal stored outside the observer keeps its sender: wire Sender -> ProposalSender -> cached_proposal() is the identity for member / external / "
+       "new-member-proposal senders and every index; new_member_commit is not a proposal sender", symbolic="sender kind, index any u32, proposal ref byte",
+  bounds="Remove proposal")
